@@ -50,6 +50,7 @@ type Spec struct {
 	UID        int      `json:"uid"`
 	DirState   string   `json:"dir_state"` // exists missing missing-deep file
 	Path       string   `json:"path"`
+	Path2      string   `json:"path2,omitempty"` // a second directory the same FileSystem value may be re-pointed at
 	Cwd        string   `json:"cwd,omitempty"`
 	IDs        []string `json:"ids"`
 	Docs       []string `json:"docs"` // base64 protobuf; Metadata.Id is set per step
@@ -111,7 +112,9 @@ type env struct {
 	docs        []*sbom.Document
 	fs          *storage.FileSystem
 	res         *core.Result
-	model       map[string]*entry // by identifier
+	model       map[string]*entry            // by identifier (entries of the directory currently configured)
+	models      map[string]map[string]*entry // per configured directory
+	curPath     string
 	base        []simos.TreeEntry // tree before the history (outside-path comparison)
 	faults      map[string]int
 	firedBefore int
@@ -151,6 +154,9 @@ func newDisk(sp *Spec) *simos.Disk {
 		d.Put(absOf(d, sp.Path), []byte("i am a file"), 0o644, sp.UID)
 	case "missing", "missing-deep":
 		// parents of "missing" exist; "missing-deep" has a path with missing parents
+	}
+	if sp.Path2 != "" {
+		d.PutDir(absOf(d, sp.Path2), 0o755, sp.UID)
 	}
 	return d
 }
